@@ -289,8 +289,8 @@ def grundr_zuschlag_bonus_entgeltp(
         elif grundr_bew_zeiten_avg_entgeltp < grundr_zuschlag_höchstwert_m:
             out = grundr_zuschlag_höchstwert_m - grundr_bew_zeiten_avg_entgeltp
 
-        # Case 3: Entgeltpunkte above Höchstwert
-        elif grundr_bew_zeiten_avg_entgeltp > grundr_zuschlag_höchstwert_m:
+        # Case 3: Entgeltpunkte at or above Höchstwert
+        elif grundr_bew_zeiten_avg_entgeltp >= grundr_zuschlag_höchstwert_m:
             out = 0.0
 
     # Multiply additional Engeltpunkte by factor
